@@ -2,7 +2,7 @@ import Reduino.Driver.All
 /- Line-protocol driver: one request per line on stdin, one canonical answer per line on stdout. -/
 open Reduino.Driver
 
-def handlers : List (List String → Option String) := [handleHost, handleCore, handleTool, handleFw, handleLcd, handleHeap, handleLang, handleEC, handleLayout, handleWF, handleTypes, handleCE, handlePins, handleRange]
+def handlers : List (List String → Option String) := [handleHost, handleCore, handleTool, handleFw, handleLcd, handleHeap, handleLang, handleEC, handleLayout, handleWF, handleTypes, handleTypesFun, handleCE, handlePins, handleRange]
 
 def handle (line : String) : String :=
   let fields := line.splitOn "|"
